@@ -579,6 +579,7 @@ func (P *Program) ghostScope(parent *types.Scope, pkg *types.Package, pos token.
 	mk("sameArray", boolT, anyT, anyT)
 	mk("disjoint", boolT, anyT, anyT)
 	mk("always", boolT, types.Typ[types.String], types.Typ[types.String])
+	mk("atCall", boolT, types.Typ[types.String], boolT)
 	mk("hasKey", boolT, anyT, anyT)
 	predU16 := types.NewSignatureType(nil, nil, nil, types.NewTuple(types.NewVar(0, nil, "k", types.Typ[types.Uint16])), types.NewTuple(types.NewVar(0, nil, "", boolT)), false)
 	predU32 := types.NewSignatureType(nil, nil, nil, types.NewTuple(types.NewVar(0, nil, "k", types.Typ[types.Uint32])), types.NewTuple(types.NewVar(0, nil, "", boolT)), false)
@@ -665,7 +666,7 @@ func (P *Program) prepare(cl *Clause, fn *ssa.Function, pos token.Pos) error {
 		case *ast.CallExpr:
 			if id, ok := x.Fun.(*ast.Ident); ok {
 				switch id.Name {
-				case "always", "called", "ncalls", "calledBefore", "retBool", "retErr", "retBytes", "retInt", "retU64", "retAny", "argBool", "argErr", "argBytes", "argInt", "argU64", "argAny":
+				case "always", "atCall", "called", "ncalls", "calledBefore", "retBool", "retErr", "retBytes", "retInt", "retU64", "retAny", "argBool", "argErr", "argBytes", "argInt", "argU64", "argAny":
 					cl.usesGhost = true
 				}
 			}
@@ -768,6 +769,15 @@ type specEnv struct {
 	loopHdr *ssa.BasicBlock
 	inOld   bool
 	frameOfLocals *frame
+	ghostNow *State
+}
+
+// gst: the state the call-event ghosts are read from (the current one, also inside old() and atCall()).
+func (e *specEnv) gst() *State {
+	if e.ghostNow != nil {
+		return e.ghostNow
+	}
+	return e.now
 }
 
 func (e *specEnv) st() *State {
@@ -1519,13 +1529,13 @@ func (e *specEnv) call(n *ast.CallExpr) Term {
 			}
 			return Term{fmt.Sprintf("(exists ((%s (_ BitVec 64))) %s)", bv.S, mkAnd(rng, body).S), SBool}
 		case "called":
-			return e.now.get("G$called$"+e.watchName(n.Args[0]), SBool)
+			return e.gst().get("G$called$"+e.watchName(n.Args[0]), SBool)
 		case "ncalls":
-			return e.now.get("G$ncalls$"+e.watchName(n.Args[0]), SBV64)
+			return e.gst().get("G$ncalls$"+e.watchName(n.Args[0]), SBV64)
 		case "calledBefore":
 			a, b := e.watchName(n.Args[0]), e.watchName(n.Args[1])
-			return mkAnd(e.now.get("G$called$"+a, SBool), e.now.get("G$called$"+b, SBool),
-				ult(e.now.get("G$seq$"+a, SBV64), e.now.get("G$seq$"+b, SBV64)))
+			return mkAnd(e.gst().get("G$called$"+a, SBool), e.gst().get("G$called$"+b, SBool),
+				ult(e.gst().get("G$seq$"+a, SBV64), e.gst().get("G$seq$"+b, SBV64)))
 		case "held":
 			mn := canonMutexName(e.strArg(n.Args[0]))
 			e.f.vc.heldAsked(mn)
@@ -1563,6 +1573,28 @@ func (e *specEnv) call(n *ast.CallExpr) Term {
 			return slOff(e.eval(n.Args[0]))
 		case "sameArray":
 			return mkEq(slObj(e.eval(n.Args[0])), slObj(e.eval(n.Args[1])))
+		case "atCall":
+			// atCall("watch", E): E evaluated in the state right before the (single) call of the watched name: the heap as
+			// the callee received it. Only for names with exactly one recorded call site outside loops.
+			w, ok := stringLit(n.Args[0])
+			if !ok {
+				unsup("spec: atCall(\"watch\", expr)")
+			}
+			ps := e.f.vc.preStates[w]
+			if len(ps) == 0 {
+				return tTrue // never called on any path translated so far: guard the clause with called("...")
+			}
+			if len(ps) != 1 {
+				unsup("spec: atCall(%q, ...) needs exactly one call site of %s in the function (found %d)", w, w, len(ps))
+			}
+			saved, savedIn, savedG := e.now, e.inOld, e.ghostNow
+			if e.ghostNow == nil {
+				e.ghostNow = e.now
+			}
+			e.now, e.inOld = ps[0], false
+			v := e.eval(n.Args[1])
+			e.now, e.inOld, e.ghostNow = saved, savedIn, savedG
+			return v
 		case "always":
 			// always("watch", "E"): E (a clause over the event ghosts of that watch) held right after every event of the watch so far
 			w, ok1 := stringLit(n.Args[0])
@@ -1818,8 +1850,8 @@ func (e *specEnv) pureCall(fobj *types.Func, recvExpr ast.Expr, n *ast.CallExpr)
 
 // ghostVal reads the k-th argument/result of the last call of w; unknown if an unrecorded call may have happened since.
 func (e *specEnv) ghostVal(kind, w, k string, sort Sort) Term {
-	v := e.now.get(fmt.Sprintf("G$%s$%s$%s", kind, w, k), sort)
-	t := e.now.get("G$tainted$"+w, SBool)
+	v := e.gst().get(fmt.Sprintf("G$%s$%s$%s", kind, w, k), sort)
+	t := e.gst().get("G$tainted$"+w, SBool)
 	if t.S == "false" {
 		return v
 	}
